@@ -37,20 +37,24 @@ def job_annotate(job):
     seed, paths, lab, as_tuple = job
     L = core.labeling(lab).prime(9)
     # hop times may lie far apart (durations beyond the small-integer range): abstract instant t -> L.time(t) * mult
-    mult = [1, 1, 1000, 86400][seed % 4]
+    # and far from 0 (epoch seconds): concrete time = L.time(t) * mult + base
+    mult, base = [(1, 0), (1, 0), (1000, 0), (86400, 0), (1, 1700000000), (60, 1700000000)][seed % 6]
 
     def conc(p):
-        hops = [(L.node(a), L.node(b), L.time(t) * mult) for a, b, t in p]
+        hops = [(L.node(a), L.node(b), L.time(t) * mult + base) for a, b, t in p]
         return tuple(hops) if as_tuple else hops
 
-    def unmul(x):
+    def unmul(x, off=0):
         x = core.as_int(x)
-        return x // mult if x is not None and x % mult == 0 else None
+        if x is None:
+            return None
+        x -= off
+        return x // mult if x % mult == 0 else None
 
     def proj(p):
         out = []
         for h in p:
-            ct = unmul(h[2])
+            ct = unmul(h[2], base)
             out.append([L.anode(h[0]), L.anode(h[1]), L.atime(ct) if ct is not None else -10 ** 6])
         return out
 
@@ -66,6 +70,7 @@ def job_annotate(job):
         line["lens"] = [num(al.path_length(p)) for p in cp]
         line["durs"] = [unmul(num(al.path_duration(p))) if unmul(num(al.path_duration(p))) is not None else -10 ** 6 for p in cp]
         line["mult"] = mult
+        line["base"] = base
         line["res"] = "ok"
     except Exception as ex:
         line["res"] = core.exc_name(ex)
